@@ -147,11 +147,70 @@ def int_value(n):
     return None
 
 
-def expr_text(n):
-    """Compact textual rendering of an expression subtree (for reports and structural comparison)."""
+def local_inits(fn):
+    """{name: init expression} of the local variables of a function that are initialised at their declaration and
+    never assigned again (no `=`, compound assignment, ++/-- on them): they are names for their initialiser."""
+    inits, dirty = {}, set()
+    for v in find(fn, "VarDecl"):
+        if v.get("inner") and v.get("name"):
+            init = [x for x in v["inner"] if x.get("kind") not in ("FullComment", "ParagraphComment", "TextComment")]
+            if init:
+                inits[v["name"]] = init[-1]
+    for n in walk(fn):
+        k = n.get("kind")
+        if k in ("BinaryOperator", "CompoundAssignOperator") and (k == "CompoundAssignOperator" or n.get("opcode") == "=") and n.get("inner"):
+            lhs = strip_casts(n["inner"][0])
+            if lhs.get("kind") == "DeclRefExpr":
+                dirty.add((lhs.get("referencedDecl") or {}).get("name"))
+        elif k == "UnaryOperator" and n.get("opcode") in ("++", "--") and n.get("inner"):
+            x = strip_casts(n["inner"][0])
+            if x.get("kind") == "DeclRefExpr":
+                dirty.add((x.get("referencedDecl") or {}).get("name"))
+        elif k == "CXXOperatorCallExpr" and n.get("inner") and expr_text(n["inner"][0]) in ("operator=", "operator+=", "operator-="):
+            x = strip_casts(n["inner"][1]) if len(n["inner"]) > 1 else {}
+            if x.get("kind") == "DeclRefExpr":
+                dirty.add((x.get("referencedDecl") or {}).get("name"))
+    return {k: v for k, v in inits.items() if k not in dirty}
+
+
+def split_index_chain(text):
+    """'a[b[c]][d]' -> ('a', ['b[c]', 'd']) (bracket-depth aware)."""
+    idx = []
+    t = text
+    while t.endswith("]"):
+        depth = 0
+        for i in range(len(t) - 1, -1, -1):
+            if t[i] == "]":
+                depth += 1
+            elif t[i] == "[":
+                depth -= 1
+                if depth == 0:
+                    idx.insert(0, t[i + 1 : -1])
+                    t = t[:i]
+                    break
+        else:
+            break
+    return t, idx
+
+
+def expr_text(n, env=None, _depth=0):
+    """Compact textual rendering of an expression subtree (for reports and structural comparison).
+    With ``env`` (from local_inits) references to single-assignment locals are replaced by their initialisers."""
     n = strip_casts(n)
     k = n.get("kind")
     inner = n.get("inner", []) or []
+    if env and k == "DeclRefExpr" and _depth < 12:
+        nm = (n.get("referencedDecl") or {}).get("name")
+        if nm in env:
+            return "(" + expr_text(env[nm], env, _depth + 1) + ")"
+    if env is not None:
+        _et = lambda x: expr_text(x, env, _depth)
+    else:
+        _et = expr_text
+    return _expr_text(n, k, inner, _et)
+
+
+def _expr_text(n, k, inner, expr_text):
     if k == "IntegerLiteral":
         return str(n.get("value"))
     if k == "DeclRefExpr":
